@@ -62,7 +62,22 @@ def replay_case(case):
   try:
     par = tbrmmdesignparameters.TBRMMDesignParameters(**kw)
     data = tbrmmdata.TBRMMData(panel(n), 'response', geoeligibility.GeoEligibility(pd.DataFrame(erows)))
-    mm = tbrmatchedmarkets.TBRMatchedMarkets(data, par)
+    if (n + case['count'] + case['tr'][1]) % 3 == 0:
+      # the searcher counted under OTHER size settings before (parameters is a public attribute, replaced afterwards)
+      kw0 = dict(n_test=3, iroas=1.0)
+      if case['cr'][1] or case['gtol'][1]:
+        if case['tr'][1]:
+          kw0['treatment_geos_range'] = tuple(case['tr'])
+      else:
+        kw0['control_geos_range'] = (1, 1)
+      mm = tbrmatchedmarkets.TBRMatchedMarkets(data, tbrmmdesignparameters.TBRMMDesignParameters(**kw0))
+      try:
+        mm.count_max_designs()
+      except ValueError:
+        pass
+      mm.parameters = par
+    else:
+      mm = tbrmatchedmarkets.TBRMatchedMarkets(data, par)
     edits = (n + len(erows) + case['count']) % 2 == 0
     if edits:
       # the caller has read the assignments first and edited the sets it was handed (groups yielded by a running
